@@ -161,7 +161,7 @@ def witness(fid):
     O["uj2"]["params"]["uj_steps"] = ["refs", ["s4"]]          # up2 has no job
     env.seed_ids(1)
     objs = build(spec)
-    e = {"op": "set", "obj": "uj2", "attr": "uj_steps", "value": ["refs", ["s3", "s1"]]}
+    e = {"op": "set", "obj": "uj2", "attr": "uj_steps", "value": ["refs", ["s4", "s3", "s1"]]}
     s2 = copy.deepcopy(spec); edits.apply_spec(e, s2)
     edits.apply_live(e, objs)
     ref = build(prune(s2))
